@@ -184,9 +184,13 @@ def run(eng: Engine, ck: Check):
             # is f used as a done-callback?
             used_as_cb = any(how == 'callback' for _, _, how in eng.res.callers_of(f))
             if not used_as_cb:
-                if f.name == 'cancel_tasks':
-                    continue
-                ck.note(f'{f.key} clears {slot} (not a done-callback)')
+                # anywhere else a slot may only be emptied once its task is finished: the scheduler takes "slot empty / task done" as
+                # "no attempt in flight", and abort/pause cancel and await exactly what the slots hold
+                fin = eng.guarded_by(f, st, lambda e, pol: pol and isinstance(e, ast.Call) and call_name(e) == 'done' and mentions_attr(e, slot))
+                ck.ob('R-C06-SLOT-CLEAR', f, st, f'{slot} is emptied only by its done-callback (or where the task is known to be done): the slot holds the task '
+                      'for as long as it runs', fin is not None,
+                      f'`{unparse(st)}` in {f.qualname} drops the handle of a task that may still be winding down after cancel(): while abort/pause await it, the '
+                      'transfer looks idle and a management cycle starts a second attempt that nobody cancels', construct=f'{f.qualname} clears {slot}')
                 continue
             cleared += 1
             params = [p for p in f.params if p != 'self']
@@ -312,6 +316,37 @@ def run(eng: Engine, ck: Check):
                   f'{ci.name}.{op} cancels and awaits the transfer\'s tasks on every path before it transitions', bool(trs) and p is None,
                   'a transition is reachable without awaiting _cancel_transfer_tasks()/_stop_transfer() '
                   f'({c.describe_path(p, m.where) if p else "no transition found"})', construct=f'{val}.{op} cancels first')
+    # ... and for the states the scheduler picks transfers from, nothing suspends between "tasks cancelled and awaited" and the
+    # transition: in that window the transfer is schedulable and has no task, so a management cycle starts a new attempt that this
+    # abort/pause never cancels (it then acts for -- or re-queues -- an aborted transfer)
+    gq_ = eng.func(TM, 'TransferManager._get_queued_transfers')
+    schedulable = set()
+    for a_ in [x for x in calls_in(gq_.node) if call_name(x) == 'append']:
+        for e, pol, _ in expanded_guards(eng, gq_, a_):
+            if pol and mentions_attr(e, 'state'):
+                schedulable |= enum_members_in(e) & set(states)
+    ck.floor('R-C06-CANCEL-ALL.schedulable', len(schedulable), 2)
+    for val in sorted(schedulable):
+        ci = states[val]
+        for op in ('abort', 'pause'):
+            m = ci.methods.get(op)
+            if m is None:
+                continue
+            c = eng.cfg(m)
+            canc = [n for call in calls_in(m.node) if call_name(call) in ('_cancel_transfer_tasks', '_stop_transfer')
+                    and isinstance(parent(call), ast.Await) for n in c.nodes_for(call)]
+            trs = [n for call, _ in transitions_in(m, by_class) for n in c.nodes_for(call)]
+            susp = None
+            for a_ in canc:
+                for b_ in trs:
+                    s_ = c.suspension_between(a_, b_)
+                    if s_ is not None and s_ is not a_ and s_ is not b_:
+                        susp = s_
+            ck.ob('R-C06-CANCEL-ALL', m, m.node, f'{ci.name}.{op}: no suspension between the awaited cancellation and the transition ({val} is a state the '
+                  'scheduler starts attempts from)', susp is None,
+                  (f'line {susp.lineno} (`{unparse(susp.ast)[:50]}`) suspends while the transfer is still {val} and has no task: a management cycle in that window '
+                   'starts a remote-queue attempt that is not cancelled; after the call returned it sends PeerTransferQueue for, or re-queues, the aborted transfer')
+                  if susp else '', construct=f'{val}.{op} cancel-transition atomic')
     ck.floor('R-C06-CANCEL-ALL.ops', n_ops, 11)
     rm = eng.func(TM, 'TransferManager.remove')
     c = eng.cfg(rm)
